@@ -531,6 +531,11 @@ func (v *variablesVisitor) traverseNamedTypeNode(jsonValue *astjson.Value, typeN
 				v.renderVariableInvalidNestedTypeError(jsonValue, fieldTypeDefinitionNode.Kind, typeName, false)
 				return
 			}
+			// a number outside the finite IEEE 754 doubles (1e400) is not a Float
+			if number, err := jsonValue.Float64(); err != nil || math.IsInf(number, 0) || math.IsNaN(number) {
+				v.renderVariableInvalidNestedTypeError(jsonValue, fieldTypeDefinitionNode.Kind, typeName, false)
+				return
+			}
 		case "Boolean":
 			if jsonValue.Type() != astjson.TypeTrue && jsonValue.Type() != astjson.TypeFalse {
 				v.renderVariableInvalidNestedTypeError(jsonValue, fieldTypeDefinitionNode.Kind, typeName, false)
